@@ -84,6 +84,10 @@ pub struct TunnelCase {
     /// server and the target backs up until the kernel takes only parts of what the relay writes
     #[serde(default)]
     pub slow_target: Option<(u16, u8)>,
+    /// the application shuts down its sending direction as soon as it has written everything and
+    /// goes on reading: what is still on its way back must arrive all the same
+    #[serde(default)]
+    pub half_close_after_write: bool,
 }
 
 pub struct TunnelFam;
@@ -96,20 +100,31 @@ impl Family for TunnelFam {
     fn strategy(&self, _tier: Tier) -> BoxedStrategy<TunnelCase> {
         let chunk = weighted_sizes(vec![(3, 1..=100), (3, 101..=9000), (2, 8191..=8193), (2, 65534..=65537), (1, 70000..=70000), (1, 200_000..=200_000)]);
         let plain = (any::<bool>(), proptest::collection::vec(chunk, 1..8), 0u8..4, prop_oneof![Just(0usize), Just(10), Just(100_000)])
-            .prop_map(|(via_http, chunks, pause_every, greeting)| TunnelCase { via_http, chunks, pause_every, greeting, slow_reader_ms: 0, slow_target: None });
+            .prop_map(|(via_http, chunks, pause_every, greeting)| TunnelCase { via_http, chunks, pause_every, greeting, slow_reader_ms: 0, slow_target: None, half_close_after_write: false });
         // megabytes against a reader that starts late
         let big = weighted_sizes(vec![(1, 65536..=65536), (2, 1_000_000..=1_000_000), (1, 2_500_000..=2_500_000)]);
         let pressed = (any::<bool>(), proptest::collection::vec(big, 2..5), prop_oneof![Just(0usize), Just(3_000_000)], prop_oneof![Just(150u16), Just(600)])
-            .prop_map(|(via_http, chunks, greeting, slow_reader_ms)| TunnelCase { via_http, chunks, pause_every: 0, greeting, slow_reader_ms, slow_target: None });
+            .prop_map(|(via_http, chunks, greeting, slow_reader_ms)| TunnelCase { via_http, chunks, pause_every: 0, greeting, slow_reader_ms, slow_target: None, half_close_after_write: false });
         let stalled_target = (any::<bool>(), prop_oneof![Just(300u16), Just(1500)], prop_oneof![Just(12u8), Just(24)])
-            .prop_map(|(via_http, ms, mib)| TunnelCase { via_http, chunks: vec![], pause_every: 0, greeting: 0, slow_reader_ms: 0, slow_target: Some((ms, mib)) });
-        prop_oneof![28 => plain, 4 => pressed, 1 => stalled_target].boxed()
+            .prop_map(|(via_http, ms, mib)| TunnelCase { via_http, chunks: vec![], pause_every: 0, greeting: 0, slow_reader_ms: 0, slow_target: Some((ms, mib)), half_close_after_write: false });
+        let any_plain = (plain, proptest::bool::weighted(0.3)).prop_map(|(mut c, h)| {
+            c.half_close_after_write = h;
+            c
+        });
+        let any_pressed = (pressed, proptest::bool::weighted(0.3)).prop_map(|(mut c, h)| {
+            c.half_close_after_write = h;
+            c
+        });
+        prop_oneof![28 => any_plain, 4 => any_pressed, 1 => stalled_target].boxed()
     }
     fn fixed_cases(&self, _tier: Tier) -> Vec<TunnelCase> {
         // an upload against a target that does not read at first, through either front-end
         vec![
-            TunnelCase { via_http: false, chunks: vec![], pause_every: 0, greeting: 0, slow_reader_ms: 0, slow_target: Some((1500, 24)) },
-            TunnelCase { via_http: true, chunks: vec![], pause_every: 0, greeting: 0, slow_reader_ms: 0, slow_target: Some((1500, 24)) },
+            TunnelCase { via_http: false, chunks: vec![], pause_every: 0, greeting: 0, slow_reader_ms: 0, slow_target: Some((1500, 24)), half_close_after_write: false },
+            // request, half-close, then a long reply (the application's side is done, the reply is not)
+            TunnelCase { via_http: false, chunks: vec![200_000], pause_every: 0, greeting: 100_000, slow_reader_ms: 150, slow_target: None, half_close_after_write: true },
+            TunnelCase { via_http: true, chunks: vec![200_000], pause_every: 0, greeting: 100_000, slow_reader_ms: 150, slow_target: None, half_close_after_write: true },
+            TunnelCase { via_http: true, chunks: vec![], pause_every: 0, greeting: 0, slow_reader_ms: 0, slow_target: Some((1500, 24)), half_close_after_write: false },
         ]
     }
     fn case_budget_s(&self) -> u64 {
@@ -189,6 +204,7 @@ impl Family for TunnelFam {
                 let total: usize = case.chunks.iter().sum();
                 let chunks = case.chunks.clone();
                 let pause = case.pause_every;
+                let half_close = case.half_close_after_write;
                 let (mut rd, mut wr) = s.split();
                 let writer = async {
                     let mut off = 0u64;
@@ -201,6 +217,9 @@ impl Family for TunnelFam {
                         if pause > 0 && i % pause as usize == 0 {
                             tokio::time::sleep(Duration::from_millis(2)).await;
                         }
+                    }
+                    if half_close {
+                        let _ = wr.shutdown().await;
                     }
                     true
                 };
@@ -268,6 +287,7 @@ impl Family for TunnelFam {
         out.class_if(case.greeting > 65535, "target-sends-first>64KiB");
         out.class_if(case.slow_reader_ms > 0 && total >= 2_000_000, "late-reader>=2MB-in-flight");
         out.class_if(case.slow_target.is_some(), "upload-against-a-stalled-target");
+        out.class_if(case.half_close_after_write && case.slow_target.is_none(), "application-half-closes-while-the-reply-is-on-its-way");
         out.nt(case.slow_target.is_some());
         Ok(out)
     }
@@ -374,7 +394,16 @@ impl Family for EofFam {
                     _ => TargetMode::SendThenShutdown(Vec::new()), // placeholder, replaced below
                 };
                 let app_closes = matches!(case.closer, Closer::AppHalfClose | Closer::AppClose);
-                let target = if app_closes { TcpTarget::start(IpAddr::V4(worker_ip_n(31)), TargetMode::Sink).await? } else { TcpTarget::start(IpAddr::V4(worker_ip_n(31)), mode).await? };
+                // (the application half-closes: the target answers once it has everything - the reply travels
+                // while the application's direction is already finished)
+                let reply_after = case.closer == Closer::AppHalfClose && case.down > 0 && case.up > 0;
+                let target = if reply_after {
+                    TcpTarget::start(IpAddr::V4(worker_ip_n(31)), TargetMode::ReplyAfter(case.up, down.clone())).await?
+                } else if app_closes {
+                    TcpTarget::start(IpAddr::V4(worker_ip_n(31)), TargetMode::Sink).await?
+                } else {
+                    TcpTarget::start(IpAddr::V4(worker_ip_n(31)), mode).await?
+                };
                 let mut s = if case.via_http {
                     http_connect(w.http, &target.addr.to_string(), b"").await.map_err(|e| Fail::plain("C08.P1", format!("CONNECT failed: {e}")))?.0
                 } else {
@@ -387,11 +416,13 @@ impl Family for EofFam {
                 if app_closes {
                     // the application sends `up` bytes and ends its direction
                     s.write_all(&up).await.map_err(|e| Fail::plain("C08.P2", format!("write: {e}")))?;
-                    if case.closer == Closer::AppHalfClose {
+                    let mut s = if case.closer == Closer::AppHalfClose {
                         let _ = s.shutdown().await;
+                        Some(s)
                     } else {
                         drop(s);
-                    }
+                        None
+                    };
                     // P2 (safety): every byte sent before the close reaches the target
                     let ok = wait_until(20_000, || target.total_received() >= up.len()).await;
                     let conn = target.conn(0);
@@ -404,6 +435,19 @@ impl Family for EofFam {
                         case.closer,
                         got.len()
                     );
+                    // P3: the other direction keeps working until it ends too - the target's reply, sent after
+                    // the application's half-close, arrives in full
+                    if let (true, Some(s)) = (reply_after, s.as_mut()) {
+                        match read_exact_timeout(s, down.len(), 20_000).await {
+                            Ok(g) => ensure!(g == down, "C08.P3", "the reply that followed the application's half-close arrived altered"),
+                            Err((g, why)) => {
+                                return Err(Fail::plain(
+                                    "C08.P3",
+                                    format!("the application sent {} bytes and half-closed, the target then replied with {} bytes; the application received {} of them, then: {why} (via {via})", up.len(), down.len(), g.len()),
+                                ));
+                            }
+                        }
+                    }
                     // P1 (liveness): the target then observes end-of-stream
                     let eof = wait_until(1500, || conn.as_ref().is_some_and(|c| c.lock().unwrap().eof)).await;
                     if !eof && !cx.tolerate("C08.P1:e2e:eof-not-propagated") {
@@ -453,6 +497,7 @@ impl Family for EofFam {
         }
         out.nt(case.up + case.down > 0);
         out.class_if(case.up >= 70_000 || case.down >= 70_000, "data-in-flight>64KiB");
+        out.class_if(case.closer == Closer::AppHalfClose && case.down > 0 && case.up > 0, "reply-after-the-application-half-closed");
         out.class(match case.closer {
             Closer::AppHalfClose => "app-half-close",
             Closer::AppClose => "app-close",
